@@ -533,6 +533,38 @@ def atoms_text():
     if a1 < 0 or a2 < a1:
         raise R.Unsupported("get_block_values: the arm of section type 1 not found")
     emit_fields("bf_bedgraph_item", "items of a bedGraph (type 1) section (12 bytes each)", gbv[a1:a2])
+    # --- the index search's entry points: search_cir_tree / search_cir_tree_inner in bbiread.rs -------------------------------------
+    sct = region(brs2, "search_cir_tree")
+    def some_arm_value(text):
+        """the value of the `Some(x) => …` arm (an expression, or the tail expression of a block), with `x.` renamed to `c.`"""
+        m = re.search(r"Some\((\w+)\)\s*=>\s*", text or "")
+        if not m:
+            raise R.Unsupported("Some(..) arm not found")
+        k = m.end()
+        if text[k] == "{":
+            depth, q = 0, k
+            while True:
+                depth += {"{": 1, "}": -1}.get(text[q], 0)
+                if depth == 0:
+                    break
+                q += 1
+            body_ = text[k + 1:q]
+            tail = re.split(r"[;}]", body_)[-1].strip()
+        else:
+            tail = re.match(r"[^,\n]+", text[k:]).group(0).strip()
+        return R.parse_expr(re.sub(r"\b" + re.escape(m.group(1)) + r"\.", "c.", tail))
+    emit("sc_chrom_id", [("c_id", N), ("ix", N)], N, lambda: (some_arm_value(sct)))
+    sci = R.find_fn(brs2, "search_cir_tree_inner")
+    both = (sct or "") + "\n" + sci
+    guards = [re.sub(r"\s+", " ", g.strip()) for g in re.findall(r"\bif\s+([^{}]+?)\s*\{\s*return\s+Ok\(", both)]
+    mfor = re.search(r"\bfor\s+\w+\s+in\s+([^{]+?)\s*\{", sci)
+    if not mfor:
+        raise R.Unsupported("search_cir_tree_inner: the loop over the index walk not found")
+    adaptors = re.findall(r"\.\s*([a-z_]+)\s*\(", mfor.group(1))
+    out.append("/-- conditions under which `search_cir_tree` / `search_cir_tree_inner` return `Ok` early, without walking the index -/\n"
+               "def sc_early_returns : List String :=\n  [" + ", ".join('"' + g.replace('"', "'") + '"' for g in guards) + "]")
+    out.append("/-- iterator adaptors applied to the index walk before its blocks are collected (`for i in <walk>…`) -/\n"
+               "def sc_walk_adaptors : List String :=\n  [" + ", ".join('"' + a + '"' for a in adaptors) + "]")
     # --- the staging buffer's reported length: TempFileBuffer::len in tempfilebuffer.rs ----------------------------------------
     b = region(read("bigtools/src/utils/file/tempfilebuffer.rs"), "len")
 
